@@ -244,6 +244,15 @@ pub struct Machine {
     pub excluded_known: u64,
     /// strict mode: known findings are not excluded (used by the per-run probes)
     pub strict: bool,
+    /// fault-injection mode (C08): storage errors are expected, see `exec_fault`
+    pub fault_mode: bool,
+    /// an I/O-class error has been reported to the caller since the last successful open
+    pub surfaced: bool,
+    pub surfaced_count: u32,
+    /// a commit returned a storage error: whether it took effect is unknown until reopen
+    pub uncertain: bool,
+    pub writes_refused_after_error: u32,
+    pub ended_by_failed_open: bool,
 }
 
 #[derive(Clone, Debug)]
@@ -331,6 +340,12 @@ impl Machine {
             last_abandon: None,
             excluded_known: 0,
             strict: false,
+            fault_mode: false,
+            surfaced: false,
+            surfaced_count: 0,
+            uncertain: false,
+            writes_refused_after_error: 0,
+            ended_by_failed_open: false,
         };
         m.backend.mark(0, 0, "created");
         Ok(m)
@@ -358,8 +373,14 @@ impl Machine {
     pub fn begin_write(&mut self, dur: Dur, two_phase: bool, quick_repair: bool) -> R {
         let mut txn = match self.db().begin_write() {
             Ok(t) => t,
-            Err(e) => return Err(Stop::Io(format!("begin_write: {e:?}"))),
+            Err(e) => {
+                if self.surfaced {
+                    self.writes_refused_after_error += 1;
+                }
+                return Err(Stop::Io(format!("begin_write: {e:?}")));
+            }
         };
+        sensure!(!self.surfaced, "write-accepted-after-io-error", "begin_write() succeeded although a storage error had been reported earlier and the database was not reopened");
         tr!(self, "begin_write(durability={dur:?}, two_phase={two_phase}, quick_repair={quick_repair})");
         if dur == Dur::None {
             match txn.set_durability(Durability::None) {
@@ -430,9 +451,16 @@ impl Machine {
             Ok(Ok(())) => {}
             Ok(Err(CommitError::Storage(e))) => {
                 // the commit may or may not have taken effect; only fault injection gets here
+                self.uncertain = true;
                 self.commits.push(Arc::new(w.work.clone()));
                 self.apply_commit_side_effects(&w);
                 return Err(Stop::Io(format!("commit: {e:?}")));
+            }
+            Ok(Err(CommitError::TransactionPoisoned)) if self.fault_mode && self.backend.lock().fault_fired => {
+                // an operation failed part-way under the injected fault and poisoned the
+                // transaction: the commit is refused, which is an error report, and acts as abort
+                self.mark_now("idle");
+                return Ok(());
             }
             Ok(Err(e)) => sfail!("commit", "commit() failed: {e:?}"),
             Err(p) => sfail!(format!("panic:{}", normalize_sig(&p)), "panic in commit(): {p}"),
@@ -544,6 +572,11 @@ impl Machine {
     // verification of committed contents through the public read API
 
     pub fn verify_committed(&mut self) -> R {
+        if self.surfaced || self.uncertain {
+            // after a reported storage error the in-session view may legitimately be either side
+            // of the failed commit; the reopen oracle decides
+            return Ok(());
+        }
         let st = self.last().clone();
         let db = self.db.as_ref().unwrap();
         verify_db_tables(db, &st.tables)
@@ -918,7 +951,7 @@ impl Machine {
             let n: Vec<String> = io!(txn.list_tables()).map(|h| h.name().to_string()).collect();
             let m: Vec<String> = io!(txn.list_multimap_tables()).map(|h| h.name().to_string()).collect();
             check_lists(&n, &m, &w.work.tables, "write transaction")?;
-        } else {
+        } else if !(self.surfaced || self.uncertain) {
             let rt = match self.db().begin_read() {
                 Ok(t) => t,
                 Err(e) => return Err(Stop::Io(format!("begin_read: {e:?}"))),
@@ -1158,7 +1191,7 @@ impl Machine {
     // readers
 
     fn op_begin_read(&mut self) -> R {
-        if self.readers.len() >= self.profile.max_readers {
+        if self.readers.len() >= self.profile.max_readers || self.surfaced || self.uncertain {
             return Ok(());
         }
         let rt = match self.db().begin_read() {
@@ -1358,16 +1391,43 @@ impl Machine {
         }
         let closes = self.backend.lock().closes;
         sensure!(closes == 1, "close-count", "close() was called {closes} times when the Database was dropped (expected exactly once)");
-        self.d = self.commits.len() - 1;
-        self.backend.mark(self.d, self.d, "open");
+        let faulty = self.fault_mode && self.backend.lock().fault_fired;
+        if !faulty {
+            self.d = self.commits.len() - 1;
+        }
+        self.backend.mark(self.d, self.commits.len() - 1, "open");
         let b = self.backend.reopen_handle();
         let db = match catch(|| self.cfg.builder().create_with_backend(b)) {
             Ok(Ok(db)) => db,
+            Ok(Err(e)) if self.fault_mode => {
+                // a failing open must still close the backend exactly once
+                let closes = self.backend.lock().closes;
+                sensure!(closes == 1, "close-count-failed-open", "close() was called {closes} times for a backend whose open failed with {e:?} (expected exactly once)");
+                self.ended_by_failed_open = true;
+                return Err(Stop::Io(format!("open: {e:?}")));
+            }
             Ok(Err(DatabaseError::Storage(e))) => return Err(Stop::Io(format!("open: {e:?}"))),
             Ok(Err(e)) => sfail!("reopen", "reopening after a clean close failed: {e:?}"),
             Err(p) => sfail!(format!("panic:{}", normalize_sig(&p)), "panic reopening after a clean close: {p}"),
         };
         self.db = Some(db);
+        self.surfaced = false;
+        self.uncertain = false;
+        if faulty {
+            // after a storage error the close may not have been clean: the reopened contents
+            // must be one commit point of the window, which then becomes the model's present
+            let cands: Vec<(usize, Arc<DbState>)> = (self.d..self.commits.len()).map(|j| (j, self.commits[j].clone())).collect();
+            let j = crate::crash::match_commit_point(self.db.as_ref().unwrap(), &cands)?;
+            self.commits.truncate(j + 1);
+            self.d = j;
+            for sp in &mut self.sps {
+                if let Some(id) = sp.persistent
+                    && !self.commits[j].psp.contains_key(&id)
+                {
+                    sp.invalid = true;
+                }
+            }
+        }
         self.backend.mark(self.d, self.d, "idle");
         self.stats.reopens += 1;
         // all ephemeral savepoints died with the Database
@@ -1478,17 +1538,9 @@ impl Machine {
                 self.backend.mark(self.d, self.d, "idle");
                 self.verify_committed()?;
             }
-            Ok(false) if stale_layout && !self.strict => {
-                // known finding C11/check-integrity-false-after-unwritten-resize: excluded by
-                // construction (counted), probed separately by C11
-                self.excluded_known += 1;
-                self.d = self.commits.len() - 1;
-                self.backend.mark(self.d, self.d, "idle");
-                self.verify_committed()?;
-            }
             Ok(false) if stale_layout => sfail!("check-integrity-false-after-unwritten-resize", "check_integrity() returned Ok(false) on a healthy database whose file was resized by a transaction that did not commit (on-disk layout fields stale)"),
             Ok(false) => sfail!("check-integrity-false", "check_integrity() returned Ok(false) on a healthy database"),
-            Err(DatabaseError::Storage(redb::StorageError::Io(e))) => return Err(Stop::Io(format!("check_integrity: {e:?}"))),
+            Err(DatabaseError::Storage(e @ (redb::StorageError::Io(_) | redb::StorageError::PreviousIo))) => return Err(Stop::Io(format!("check_integrity: {e:?}"))),
             Err(e) => {
                 let s = format!("{e:?}");
                 sensure!((readers || eph_any) && s.contains("TransactionInProgress"), "check-integrity-error", "check_integrity() failed on a healthy database: {e:?} (readers={readers}, ephemeral savepoints={eph_any})");
@@ -1526,6 +1578,46 @@ impl Machine {
         Ok(())
     }
 
+    /// C08: one record under fault injection. Returns Ok(false) when the history cannot continue
+    /// (an open failed)
+    pub fn exec_fault(&mut self, rec: &[u8; 12]) -> Result<bool, Failure> {
+        if self.db.is_none() {
+            return Ok(false);
+        }
+        match self.exec(rec) {
+            Ok(()) => Ok(true),
+            Err(Stop::Fail(f)) => Err(f),
+            Err(Stop::Io(e)) => {
+                self.on_io_error(&e)?;
+                Ok(self.db.is_some())
+            }
+        }
+    }
+
+    pub fn on_io_error(&mut self, e: &str) -> Result<(), Failure> {
+        let fired = self.backend.lock().fault_fired;
+        if !fired {
+            return Err(Failure::new("unexpected-storage-error", format!("redb reported a storage error although no fault had been injected yet: {e}")));
+        }
+        tr!(self, "  -> storage error reported: {e}");
+        if e.contains("Io(") || e.contains("PreviousIo") {
+            if !self.surfaced {
+                self.surfaced_count += 1;
+            }
+            self.surfaced = true;
+        }
+        // abandon the open write transaction; dropping it must not panic
+        if let Some(mut w) = self.w.take() {
+            w.held.clear();
+            let txn = w.txn.take();
+            if let Err(p) = catch(|| drop(txn)) {
+                return Err(Failure::new(format!("panic:{}", normalize_sig(&p)), format!("panic while dropping a write transaction after a storage error: {p}")));
+            }
+            self.backend.mark(self.d, self.commits.len() - 1, "idle");
+        }
+        Ok(())
+    }
+
     pub fn run_tape(&mut self, tape: &Tape) -> R {
         for rec in &tape.recs {
             self.exec(rec)?;
@@ -1553,7 +1645,7 @@ pub fn check_lists(n: &[String], m: &[String], tables: &Tables, who: &str) -> R 
 }
 
 /// Compare the committed contents visible to a fresh read transaction with `tables`
-pub fn verify_db_tables(db: &Database, tables: &Tables) -> R {
+pub fn verify_db_tables<D: ReadableDatabase>(db: &D, tables: &Tables) -> R {
     let rt = match catch(|| db.begin_read()) {
         Ok(Ok(t)) => t,
         Ok(Err(e)) => return Err(Stop::Io(format!("begin_read: {e:?}"))),
@@ -1587,6 +1679,55 @@ pub fn header_layout_len(image: &[u8]) -> Option<u64> {
     let u = |o: usize| u64::from(u32::from_le_bytes(image[o..o + 4].try_into().unwrap()));
     let (page, hdr, max, full, trailing) = (u(12), u(16), u(20), u(24), u(28));
     Some(page * (1 + full * (hdr + max) + if trailing > 0 { hdr + trailing } else { 0 }))
+}
+
+/// operation kinds in the order of `Profile::weights` (for hand-built probe tapes)
+pub mod kind {
+    pub const TABLE_OP: usize = 0;
+    pub const COMMIT: usize = 1;
+    pub const ABORT: usize = 2;
+    pub const BEGIN: usize = 3;
+    pub const SP_EPH: usize = 4;
+    pub const SP_PERS: usize = 5;
+    pub const RESTORE: usize = 6;
+    pub const DEL_PERS: usize = 7;
+    pub const DROP_EPH: usize = 8;
+    pub const BEGIN_READ: usize = 9;
+    pub const READER_PROBE: usize = 10;
+    pub const TAKE_OWNED: usize = 11;
+    pub const DROP_READER: usize = 12;
+    pub const REOPEN: usize = 13;
+    pub const COMPACT: usize = 14;
+    pub const CHECK: usize = 15;
+    pub const RENAME: usize = 16;
+    pub const DELETE_TABLE: usize = 17;
+    pub const LIST: usize = 18;
+}
+
+/// smallest selector byte that decodes to `kind` under `profile`
+pub fn byte_for_kind(profile: &Profile, kind: usize) -> u8 {
+    let w = profile.weights();
+    for v in 0..=255u8 {
+        let mut r = Rec::new(std::slice::from_ref(&v));
+        if r.weighted(&w) == kind {
+            return v;
+        }
+    }
+    panic!("harness: kind {kind} has weight 0 in this profile");
+}
+
+/// build a tape from (kind, payload) pairs
+pub fn build_tape(profile: &Profile, cfg: [u8; 16], ops: &[(usize, &[u8])]) -> Tape {
+    let recs = ops
+        .iter()
+        .map(|(k, payload)| {
+            let mut r = [0u8; 12];
+            r[0] = byte_for_kind(profile, *k);
+            r[1..1 + payload.len()].copy_from_slice(payload);
+            r
+        })
+        .collect();
+    Tape { cfg, recs }
 }
 
 pub fn decode_cfg(tape: &Tape) -> DbCfg {
